@@ -15,3 +15,4 @@ package interop
 //@   modifies nothing
 //@   ensures [carries-the-type] r0 != nil && fresh(r0) && (r0.FunctionError.Type == errorType || r0.FunctionError.Type == fatalerror.SandboxFailure && len(r0.Payload) == 0)
 //@   ensures [body-is-the-serialised-error] len(r0.Payload) != 0 ==> r0.FunctionError.Type == errorType
+//@   ensures [an-empty-body-only-when-the-error-could-not-be-serialised] len(r0.Payload) != 0 || r0.FunctionError.Type == fatalerror.SandboxFailure
